@@ -4,11 +4,9 @@ From Fabio Require Import Lib.Outcome Lib.Bytes Lib.Verdict Model.Redirect Model
 Import ListNotations.
 Local Open Scope N_scope.
 
-(* the fields of RedirectURL that are observable: Scheme/Host/Path decide the self-redirect
-   test of Table.Lookup; RawPath and RawQuery only matter through String(), which is compared
-   as a whole (so a repair that fills RawPath differently is not a disagreement) *)
 Definition url_eqb (a b : url) : bool :=
-  beq (u_scheme a) (u_scheme b) && beq (u_host a) (u_host b) && beq (u_path a) (u_path b).
+  beq (u_scheme a) (u_scheme b) && beq (u_host a) (u_host b) && beq (u_path a) (u_path b)
+  && beq (u_rawpath a) (u_rawpath b) && beq (u_query a) (u_query b).
 
 Definition response_eqb (a b : response) : bool :=
   match a, b with
@@ -19,24 +17,12 @@ Definition response_eqb (a b : response) : bool :=
   | _, _ => false
   end.
 
-(* Locations compared up to percent-decoding: who answers, with which status, pointing where.
-   The exact text of a Location is judged by the CBuild cases (and finding F-C13-1). *)
+(* the same URL up to percent-decoding (only used for requests outside [req_dom]) *)
 Definition loc_equiv (a b : str) : bool :=
   match unescape_path a, unescape_path b with
   | Some x, Some y => beq x y
   | _, _ => beq a b
   end.
-Definition response_equiv (a b : response) : bool :=
-  match a, b with
-  | RRedirect c l, RRedirect c' l' => (c =? c')%Z && loc_equiv l l'
-  | _, _ => response_eqb a b
-  end.
-(* a redirect candidate of the host-adjacent form (finding F-C13-1 lives there: a repair changes
-   the text of its Locations, so there the text is compared up to decoding) *)
-Definition any_adjacent (ts : list target) : bool :=
-  existsb (fun t => negb (t_code t =? 0)%Z && adjacent t) ts.
-Definition response_same (adj : bool) (impl m : response) : bool :=
-  response_eqb impl m || (adj && response_equiv impl m).
 
 Definition opt_pair_eqb (a b : option (str * str)) : bool :=
   match a, b with
@@ -58,6 +44,11 @@ Inductive case :=
 (* two requests for the same redirect target, forced schedule Lookup A, Lookup B,
    serve A, serve B on the real HTTPProxy *)
 | CSched (t : target) (qa qb : request) (la lb : response)
+(* a request with its header fields sent over a socket to a real http.Server running
+   HTTPProxy.ServeHTTP; [hits] = calls of the upstream RoundTripper, [contacts] = connections
+   accepted by the listener that stands behind the redirect template's host:port *)
+| CServeH (hs : headers) (cands : list (option target)) (host path rawpath query : str) (tls : bool)
+          (impl : response) (hits contacts : nat)
 (* a HISTORY of requests served one after the other by one HTTPProxy over ONE table object
    (so the same *route.Target answers several requests): per request the candidates of
    Table.lookup in visiting order, the response and the upstream hit count *)
@@ -65,12 +56,6 @@ Inductive case :=
 (* Target.BuildRedirectURL called repeatedly on ONE target object: RedirectURL.String() after each call *)
 | CBuildHistory (t : target) (steps : list (request * str)).
 
-(* the model run of a serial history: the shared RedirectURL fields are threaded through *)
-Fixpoint history_model (st : store) (steps : list (request * list (option target) * response * nat)) : list response :=
-  match steps with
-  | [] => []
-  | (q, cands, _, _) :: r => let '(resp, st') := handle q cands st in resp :: history_model st' r
-  end.
 Fixpoint list_all2 {A B} (f : A -> B -> bool) (a : list A) (b : list B) : bool :=
   match a, b with
   | [], [] => true
@@ -78,6 +63,8 @@ Fixpoint list_all2 {A B} (f : A -> B -> bool) (a : list A) (b : list B) : bool :
   | _, _ => false
   end.
 
+(* no finding region is left: every finding of C13 has been repaired in /repo (see
+   known_findings/C13.json), so every disagreement and every spec failure is a violation *)
 Definition check_case (c : case) : N :=
   match c with
   | CBuild t wire q impl impl_str =>
@@ -91,9 +78,8 @@ Definition check_case (c : case) : N :=
       let weak_dom := tmpl_dom t && Bool.eqb (has_prefix (q_path q) (t_strip t)) (has_prefix wire (t_strip t)) in
       let spec := if dom then beq impl_str (expected_location t wire q)
                   else if weak_dom then loc_equiv impl_str (expected_location t wire q) else true in
-      let region := if adjacent t then Some 1 else None in
       let nontriv := dom && match path_pat t with Some _ => true | None => false end in
-      verdict same spec region nontriv
+      verdict same spec None nontriv
   | CCode opt impl =>
       let same := (impl =? redirect_code opt)%Z in
       let three := match opt with [51; a; b] => is_digit a && is_digit b | _ => false end in
@@ -101,38 +87,43 @@ Definition check_case (c : case) : N :=
                   && (if three then (impl =? digits_val 0%Z opt)%Z else true) in
       verdict same spec None (negb (impl =? 0)%Z)
   | CServe cands q impl hits =>
-      let m := fst (handle q cands []) in
-      let same := response_same (any_adjacent (somes cands)) impl m && Nat.eqb hits (upstream_calls m) in
-      let spec := response_equiv impl (ref_response q cands)
+      let m := handle q cands in
+      let same := response_eqb impl m && Nat.eqb hits (upstream_calls m) in
+      let spec := response_eqb impl (ref_response q cands)
                   && Nat.eqb hits (match impl with RProxy _ => 1 | _ => 0 end)
                   && match impl with RRedirect c _ => code_ok c | RBadCode _ => false | _ => true end in
-      let region := if any_adjacent (somes cands) then Some 1 else None in
       let nontriv := match m with RRedirect _ _ => true | _ => Nat.ltb 1 (length cands) end in
-      verdict same spec region nontriv
+      verdict same spec None nontriv
+  | CServeH hs cands host path rawpath query tls impl hits contacts =>
+      let m := handle_full hs host path rawpath query tls cands in
+      let same := response_eqb impl m && Nat.eqb (hits + contacts) (upstream_calls m) in
+      (* "no upstream is contacted" as an observed fact: neither the transport nor the listener
+         behind the template's host saw anything unless the answer is a proxied one *)
+      let spec := response_eqb impl (ref_response (request_of hs host path rawpath query tls) cands)
+                  && match impl with RProxy _ => true | _ => Nat.eqb (hits + contacts) 0 end
+                  && match impl with RRedirect c _ => code_ok c | RBadCode _ => false | _ => true end in
+      verdict same spec None (match m with RRedirect _ _ => negb (is_nil hs) | _ => false end)
   | CSched t qa qb la lb =>
       let reqs := [(qa, [Some t]); (qb, [Some t])] in
       let w := run_sched reqs [ALookup 0; ALookup 1; AServe 0; AServe 1] world0 in
       let same := match w_out w with
-                  | [(1%nat, mb); (0%nat, ma)] => response_same (adjacent t) la ma && response_same (adjacent t) lb mb
+                  | [(1%nat, mb); (0%nat, ma)] => response_eqb la ma && response_eqb lb mb
                   | _ => false
                   end in
-      let own_a := fst (handle qa [Some t] []) in
-      let own_b := fst (handle qb [Some t] []) in
-      let spec := response_equiv la own_a && response_equiv lb own_b in
-      let region := if negb (response_equiv own_a own_b) then Some 5 else None in
-      verdict same spec region (negb (response_equiv own_a own_b))
+      (* C13_every_schedule_own: each request receives its own answer *)
+      let own_a := ref_response qa [Some t] in
+      let own_b := ref_response qb [Some t] in
+      let spec := response_eqb la own_a && response_eqb lb own_b in
+      verdict same spec None (negb (response_eqb own_a own_b))
   | CHistory steps =>
       let impls := map (fun s => match s with (_, _, resp, _) => resp end) steps in
-      let adj := existsb (fun s => match s with (_, cands, _, _) => any_adjacent (somes cands) end) steps in
       let hits_ok := forallb (fun s => match s with (_, _, resp, h) => Nat.eqb h (upstream_calls resp) end) steps in
-      let same := list_all2 (response_same adj) impls (history_model [] steps) && hits_ok in
-      (* C13_answer_from_request_alone / C13_serial_schedule_own: in a serial history every
-         answer is the one the request gets when it is handled on fresh targets, and that one is
-         the reference answer [ref_response] (C13_self_redirect_skipped) *)
+      let model := map (fun s => match s with (q, cands, _, _) => handle q cands end) steps in
+      let same := list_all2 response_eqb impls model && hits_ok in
+      (* every answer of a history is the reference answer of its own request *)
       let owns := map (fun s => match s with (q, cands, _, _) => ref_response q cands end) steps in
-      let spec := list_all2 response_equiv impls owns && hits_ok in
-      let region := if adj then Some 1 else None in
-      verdict same spec region (Nat.ltb 1 (length steps))
+      let spec := list_all2 response_eqb impls owns && hits_ok in
+      verdict same spec None (Nat.ltb 1 (length steps))
   | CBuildHistory t steps =>
       let ok := forallb (fun s => match s with (q, impl_str) => beq impl_str (url_string (build_redirect_url t q)) end) steps in
       verdict ok ok None (Nat.ltb 1 (length steps))
